@@ -252,6 +252,24 @@ def fam_startonce(rng):
             control += [["service", q["pid"]] for q in grp]
             control += [["wait-count", "start", n0 + done, 1.5], ["sleep", 0.03]]
             control += [["drop-service", q["pid"]] for q in grp]
+        if not gens and rng.random() < 0.3:
+            # a quiet runtime: every coroutine payload sits in one long wait, nothing wakes the loops -
+            # then payloads arrive from threads that are themselves inside a private loop / a helper thread
+            for q in allp:
+                if q["fl"] != "thr":
+                    q["script"] = [a if a[0] != "forever" else ["sleep", 1000] for a in q["script"]]
+            quiet = []
+            for _ in range(rng.randint(1, 4)):
+                quiet.append({"pid": pid, "fl": rng.choice(["aio", "aio", "trio", "thr"]), "role": "counted", "mode": "quiet",
+                              "script": [["sleep", 1000]] if rng.random() < 0.7 else [["sleep", 0.01], ["end", {"kind": "none"}]],
+                              "args": {"args": [gen_arg(rng)], "kwargs": {}}})
+                pid += 1
+            for q in quiet:
+                if q["fl"] == "thr":
+                    q["script"] = [["wait", "never"]] if q["script"][0] == ["sleep", 1000] else q["script"]
+            allp += quiet
+            control += [["sleep", 0.3]] + [["via", rng.choice(VIA), ["adopt", q["pid"]]] for q in quiet] + \
+                       [["wait-count", "start", n0 + len(quiet), 1.5]]
         control += [["sleep", 0.12], ["shutdown"]]
     return {"family": "startonce", "race": race, "payloads": allp, "before": before, "control": control, "watchdog": 16}
 
